@@ -309,6 +309,12 @@ func genCase(t *rapid.T) Case {
 		c.Segs = gen.Segments().Draw(t, "segs")
 		c.Cycle = true
 	}
+	if !c.Pipelined && rapid.IntRange(0, 2).Draw(t, "carry?") == 0 {
+		// the head of the next message arrives together with a message: its reply must not wait for the rest
+		for range c.Msgs {
+			c.Carry = append(c.Carry, rapid.SampledFrom([]int{0, 0, 1, 2, 4, 5, 7}).Draw(t, "carry"))
+		}
+	}
 	return c
 }
 
